@@ -1,42 +1,182 @@
 """C13 — buildpacks are packaged in dependency order.
 
-Decided structurally (petgraph's traversal semantics are trusted):
-  R1 orientation     add_edge(source <- the node whose dependency list is iterated, target <- the node found
-                     for the dependency id)
+Decided structurally (petgraph's traversal semantics are trusted).  The obligations are stated on interprocedural
+effects (every add_edge / traversal call reached from the two functions, through private helpers and closures, with the
+arguments expressed in the entry function's terms) and on value normal forms (helpers inlined, closures applied where
+they are called, iterated collections decomposed into their elements), not on one spelling:
+  R1 orientation     every edge added is (s, t) with t = the node found by comparing node ids with an element of the
+                     dependency list of graph[s]
   R2 traversal       accepted (orientation, traversal, emission) triple: dependent -> dependency edges,
-                     DfsPostOrder, emitted by pushing in visit order and returned unreversed; any other
-                     combination is an unrecognised shape (fail closed)
-  R3 shared state    the traversal object is created once, before the loop over roots; move_to per root
-  R4 missing items   an unknown dependency / unknown root flows into ok_or(<error>) + `?`, never into a filter
+                     DfsPostOrder, emitted by appending graph[next()] to the returned vector in visit order, the
+                     vector being touched by nothing but that append; any other combination is an unrecognised shape
+                     (fail closed)
+  R3 shared state    the traversal object is created once, outside any loop / per-root closure, and is the receiver of
+                     every next / move_to; move_to(index of the root found by id) per root
+  R4 missing items   an unknown dependency / unknown root becomes ok_or(<error>) and is carried out of the function at
+                     every level of the call chain, never into a filter
   R5 selection       cargo-libcnb passes the node at the current dir or all nodes at the workspace root;
                      libcnb-test passes the node with the requested id; both propagate the error; packaging
                      iterates the returned order front to back
 Not decided: topological correctness on all DAGs (follows from R1–R3 given petgraph's documented post-order
 semantics); behaviour on cyclic input.
 """
-from .lib.discard import local_fates, verdict, result_fates
-from .lib.guards import conditions
-from .lib.paths import strip
-from .lib.value import vstr, walk
-from . import layer_env_common as L
+import re
+
+from .lib import iters
+from .lib.discard import verdict, result_fates
+from .lib.effects import Effects
+from .lib.value import vstr, walk, canon
+from . import C13_helpers as H
+from .C13_helpers import peel, core, is_call, site_of
 
 CG = 'libcnb_package::dependency_graph::create_dependency_graph'
 GD = 'libcnb_package::dependency_graph::get_dependencies'
 DN = 'libcnb_package::dependency_graph::DependencyNode::'
+FIND = 'std::iter::Iterator::find'
+DROPPING = ('filter_map', 'flatten', 'filter', 'flat_map')
+REORDERING = ('reverse', 'rev', 'insert', 'sort', 'sort_by', 'sort_by_key', 'dedup', 'retain', 'push_front')
 
 
-def closure_compares_id(prog, sl, clv, other_pred):
-    """closure body is  graph[*idx].id() == <captured other>"""
-    clv = strip(clv)
-    if clv[0] != 'closure' or clv[1] not in prog.fns:
-        return False
-    body = prog.fns[clv[1]]
-    v = strip(sl.local(body, 0))
-    if v[0] != 'call' or not v[1].endswith('::eq'):
-        return False
-    a, b = strip(v[2][0]), strip(v[2][1])
-    id_side = a[0] == 'call' and a[1] == DN + 'id' and any(x[0] == 'call' and 'Index' in x[1] and x[1].endswith('::index') for x in walk(a))
-    return id_side and other_pred(b)
+def classify(name):
+    """role of a callee in the dependency-graph vocabulary"""
+    if not name:
+        return None
+    last = name.split('::')[-1]
+    if 'petgraph::' in name and last == 'add_edge':
+        return 'ADD_EDGE'
+    if 'petgraph::visit::' in name:
+        if last in ('empty', 'new'):
+            return 'TRAV_NEW'
+        if last == 'next':
+            return 'TRAV_NEXT'
+        if last == 'move_to':
+            return 'TRAV_MOVE'
+    if name == FIND:
+        return 'FIND'
+    if name.startswith('std::option::Option::') and last in ('ok_or', 'ok_or_else'):
+        return 'OK_OR'
+    if name == DN + 'dependencies':
+        return 'DEPS'
+    if name in H.PUSH:
+        return 'PUSH'
+    return None
+
+
+def traversal_kind(name):
+    """`petgraph::visit::DfsPostOrder::<N, VM>::empty` -> DfsPostOrder"""
+    segs = [x for x in re.sub(r'<[^<>]*>', '', name).split('::') if x]
+    return segs[-2] if len(segs) >= 2 else None
+
+
+def call_role(c):
+    return None if c.indirect else (classify(c.res) or classify(c.decl))
+
+
+class Scope:
+    """one entry function with everything it runs: its closures, the private helpers it reaches, their closures; the
+    calls of the vocabulary as effects in the entry function's terms"""
+
+    def __init__(self, prog, sl, fn):
+        self.fn = fn
+        self.fns = list(prog.reach([fn]).values())
+        for g in H.scope_fns(prog, fn):
+            if g not in self.fns:
+                self.fns.append(g)
+        self.calls = [c for g in self.fns for c in g.calls]
+        vocab = {}
+        for c in self.calls:
+            r = call_role(c)
+            if r:
+                for n in (c.res, c.decl):
+                    if n and classify(n) == r:
+                        vocab[n] = (r, None)
+        self.E = Effects(prog, sl, vocab=vocab)
+        seen = set()
+        self.effs = []
+        for e in self.E.expand(fn, 'may'):
+            if e.call is None or call_role(e.call) != e.kind:
+                continue
+            k = (e.kind, self.site(e.call), tuple(self.site(l.call) for l in e.chain), canon(e.args))
+            if k not in seen:
+                seen.add(k)
+                self.effs.append(e)
+
+    @staticmethod
+    def site(c):
+        return (c.fn.path, c.bb)
+
+    def of(self, kind):
+        return [e for e in self.effs if e.kind == kind]
+
+    def sites(self, kind):
+        """call sites of a role anywhere in the scope (whether or not the effect expansion reaches them)"""
+        return sorted({self.site(c) for c in self.calls if call_role(c) == kind})
+
+    def all_reached(self, kind):
+        return set(self.sites(kind)) <= {self.site(e.call) for e in self.of(kind)}
+
+    def named(self, lasts):
+        return sorted({c.name for c in self.calls if c.name and c.name.split('::')[-1] in lasts})
+
+
+def find_by_id(sl, v):
+    """v denotes find(G.node_indices(), P) with P(i) = (G[i].id() == X): (G, X), else None"""
+    f = core(v)
+    if not (f[0] == 'call' and f[1] == FIND and len(f[2]) == 2):
+        return None
+    recv = core(f[2][0])
+    if not (is_call(recv, '::node_indices') and recv[2]):
+        return None
+    g = peel(recv[2][0])
+    i = H.sym('i')
+    r = H.apply1(sl, f[2][1], i)
+    if r is None:
+        return None
+    r = peel(r)
+    if not (is_call(r, '::eq') and len(r[2]) == 2):
+        return None
+    a, b = peel(r[2][0]), peel(r[2][1])
+    if not (a[0] == 'call' and a[1] == DN + 'id' and a[2]):
+        return None
+    ix = peel(a[2][0])
+    if not (is_call(ix, '::index') and len(ix[2]) == 2 and peel(ix[2][1]) == i and canon(peel(ix[2][0])) == canon(g)):
+        return None
+    return g, b
+
+
+def error_named(sl, v, variant):
+    """the error value (or the closure producing it) builds the given variant"""
+    vs = [v]
+    cl = peel(v)
+    if cl[0] in ('closure', 'fnitem'):
+        r = sl.apply_closure(cl, ())
+        if r is not None:
+            vs.append(r)
+    return any(y[0] == 'agg' and y[2] == variant for x in vs for y in walk(x))
+
+
+def levels(e):
+    return [l.call for l in e.chain] + [e.call]
+
+
+def missing_items(rep, prog, sl, S, subject, variant, ok_msg, bad_msg, where):
+    """R4: every by-id lookup's "not found" becomes Err(<variant>) and leaves the entry function as an error, whether by
+    ok_or(..) + `?` / return at every level of the call chain, or by a None arm that returns the error"""
+    finds = S.of('FIND')
+    if not finds or not S.all_reached('FIND'):
+        rep.unproven('R4', subject + '#0', where, 'the lookup of the node by id is not reached by the effect expansion (%d of %d call sites)' % (len(finds), len(S.sites('FIND'))))
+        return
+    for i, e in enumerate(finds):
+        conv = [o for o in S.of('OK_OR') if len(o.args) == 2 and error_named(sl, o.args[1], variant)
+                and site_of(core(H.reduce(sl, o.args[0]))) == S.site(e.call)]
+        ok, why = H.flows_out(prog, e)
+        if not (ok and conv):
+            ok2, why2 = H.none_is_error(prog, sl, e, variant)
+            if ok2:
+                ok, conv = True, [e]
+            elif ok:
+                why = 'no ok_or(%s) on the lookup result, %s' % (variant, why2)
+        rep.check(ok and bool(conv), 'R4', '%s#%d' % (subject, i), e.where(), ok_msg, bad_msg + ': %s' % why)
 
 
 def run(ctx, rep):
@@ -49,74 +189,101 @@ def run(ctx, rep):
     rep.analysed(cg)
     rep.analysed(gd)
     w = lambda f: '%s:%d' % (f.file, f.line)
+    SC, SG = Scope(prog, sl, cg), Scope(prog, sl, gd)
     # ---- R1 --------------------------------------------------------------------------------------------
-    edges = [c for c in cg.calls if c.name and c.name.endswith('::add_edge')]
-    if len(edges) != 1:
-        rep.unproven('R1', 'add_edge', w(cg), '%d add_edge call sites' % len(edges))
+    edges = SC.of('ADD_EDGE')
+    if len(SC.sites('ADD_EDGE')) != 1 or not edges or not SC.all_reached('ADD_EDGE'):
+        rep.unproven('R1', 'add_edge', w(cg), '%d add_edge call sites' % len(SC.sites('ADD_EDGE')))
     else:
-        c = edges[0]
-        src, tgt = strip(sl.operand(cg, c.args[1])), strip(sl.operand(cg, c.args[2]))
-        # the iterated dependency list belongs to graph[src]
-        deps = [d for d in cg.calls if d.decl == DN + 'dependencies']
-        ok_src = False
-        dep_elem = None
-        if len(deps) == 1:
-            owner = strip(sl.operand(cg, deps[0].args[0]))
-            ok_src = owner[0] == 'call' and owner[1].endswith('::index') and strip(owner[2][1]) == src
-        find = tgt if tgt[0] == 'call' and tgt[1] == 'std::iter::Iterator::find' else None
-        ok_tgt = False
-        if find is not None:
-            def other(b):
-                coll, proj = L.loop_element(b)
-                return coll is not None and any(x[0] == 'call' and x[1] == DN + 'dependencies' for x in walk(coll))
-            ok_tgt = closure_compares_id(prog, sl, find[2][1], other)
-        rep.check(ok_src and ok_tgt, 'R1', 'add_edge', c.where(), 'edge: node whose dependencies are iterated -> node found by dependency id',
-                  'edge orientation not recognised as dependent -> dependency (source_ok=%s target_ok=%s): %s -> %s' % (ok_src, ok_tgt, vstr(src)[:80], vstr(tgt)[:80]))
+        # the dependency list that is iterated belongs to graph[s]
+        owners = []
+        for d in SC.of('DEPS'):
+            o = core(H.reduce(sl, d.args[0])) if d.args else ('unknown',)
+            owners.append((peel(o[2][0]), peel(o[2][1])) if is_call(o, '::index') and len(o[2]) == 2 else None)
+        one_list = len(SC.sites('DEPS')) == 1 and SC.all_reached('DEPS') and bool(owners) and None not in owners
+        pairs = []
+        for e in edges:
+            if len(e.args) < 3:
+                pairs.append((False, False, ('unknown',), ('unknown',)))
+                continue
+            for g, s, t in H.normal_forms(prog, sl, cg, e.args[:3]):
+                g, s = peel(g), peel(s)
+                ok_src = one_list and all(canon(og) == canon(g) and os == s for og, os in owners)
+                ok_tgt = False
+                fb = find_by_id(sl, t)
+                if fb is not None and canon(fb[0]) == canon(g):
+                    coll = H.element_of(sl, fb[1])
+                    deps = [x for x in walk(coll) if x[0] == 'call' and x[1] == DN + 'dependencies'] if coll is not None else []
+                    if len(deps) == 1 and deps[0][2]:
+                        o = core(deps[0][2][0])
+                        ok_tgt = is_call(o, '::index') and len(o[2]) == 2 and canon(peel(o[2][0])) == canon(g) and peel(o[2][1]) == s
+                pairs.append((ok_src, ok_tgt, s, t))
+        ok_src, ok_tgt = all(p[0] for p in pairs), all(p[1] for p in pairs)
+        bad = next((p for p in pairs if not (p[0] and p[1])), pairs[0])
+        rep.check(ok_src and ok_tgt, 'R1', 'add_edge', edges[0].where(), 'edge: node whose dependencies are iterated -> node found by dependency id',
+                  'edge orientation not recognised as dependent -> dependency (source_ok=%s target_ok=%s): %s -> %s' % (ok_src, ok_tgt, vstr(bad[2])[:80], vstr(bad[3])[:80]))
         # R4: missing dependency
-        finds = [x for x in cg.calls if x.name == 'std::iter::Iterator::find']
-        for i, fc in enumerate(finds):
-            fates = local_fates(prog, cg, fc.dest[0], {}, set(), 0)
-            okf = verdict(fates) == 'ok'
-            via = [x for x in cg.calls if x.name and x.name.endswith('::ok_or') and any(y[0] == 'agg' and y[2] == 'MissingDependency' for y in walk(sl.operand(cg, x.args[1])))]
-            rep.check(okf and bool(via), 'R4', 'missing-dependency#%d' % i, fc.where(), 'unknown dependency => Err(MissingDependency) propagated',
-                      'a dependency id that is not in the graph is not turned into MissingDependency + `?`: %s' % [repr(x) for x in fates])
-        dropping = [x.name for x in cg.calls if x.name and x.name.split('::')[-1] in ('filter_map', 'flatten', 'filter', 'flat_map')]
+        missing_items(rep, prog, sl, SC, 'missing-dependency', 'MissingDependency', 'unknown dependency => Err(MissingDependency) propagated',
+                      'a dependency id that is not in the graph is not turned into MissingDependency + `?`', w(cg))
+        dropping = SC.named(DROPPING)
         rep.check(not dropping, 'R4', 'no-filter', w(cg), 'no filtering adapter in graph construction', 'graph construction uses %s' % dropping)
     # ---- R2 / R3 ---------------------------------------------------------------------------------------
-    names = [c.name for c in gd.calls if c.name]
-    trav = [c for c in gd.calls if c.name and 'petgraph::visit::' in c.name and c.name.endswith(('::empty', '::new'))]
-    nexts = [c for c in gd.calls if c.name and 'petgraph::visit::' in c.name and c.name.endswith('::next')]
-    moves = [c for c in gd.calls if c.name and 'petgraph::visit::' in c.name and c.name.endswith('::move_to')]
-    kind = trav[0].name.split('::')[2].split('<')[0] if trav else None
-    pushes = [c for c in gd.calls if c.name == 'std::vec::Vec::<T, A>::push']
-    shape_ok = len(trav) == 1 and kind == 'DfsPostOrder' and len(nexts) == 1 and len(pushes) == 1
+    trav = SG.of('TRAV_NEW')
+    tsites, nsites, msites = SG.sites('TRAV_NEW'), SG.sites('TRAV_NEXT'), SG.sites('TRAV_MOVE')
+    reached = SG.all_reached('TRAV_NEW') and SG.all_reached('TRAV_NEXT') and SG.all_reached('TRAV_MOVE')
+    kind = traversal_kind(trav[0].call.name) if trav else None
+    tsite = tsites[0] if len(tsites) == 1 else None
+    on_trav = lambda v: tsite is not None and site_of(core(H.reduce(sl, v))) == tsite
+    # emission: the returned vector, and everything that is ever done to it
+    ret = peel(sl.local(gd, 0))
+    graph_p = peel(sl.local(gd, 1))
+    vsites = {site_of(peel(dict(x[3])['0'])) for x in walk(ret)
+              if x[0] == 'agg' and x[2] == 'Ok' and x[3] and peel(dict(x[3])['0'])[0] == 'call' and peel(dict(x[3])['0'])[1] in H.VEC_NEW}
+    ret_ok = len(vsites) == 1 and None not in vsites
+    app, other, elems = [], [], []
+    if ret_ok:
+        vsite = next(iter(vsites))
+        app, _, other = H.vec_uses(prog, sl, gd, vsite)
+        for c, g, k in app:
+            if k == 'push':
+                # the pushed value in get_dependencies' terms (the push may sit in a helper or closure)
+                es = [e for e in SG.of('PUSH') if SG.site(e.call) == SG.site(c) and len(e.args) == 2 and site_of(peel(e.args[0])) == vsite]
+                elems.extend((a, False) for e in es for (a,) in H.normal_forms(prog, sl, gd, e.args[1:2]))
+                if not es:
+                    elems.append((('unknown', 'push not reached'), True))
+            else:
+                elems.extend(H.appended(sl, c, g, k))
+    shape_ok = len(tsites) == 1 and reached and kind == 'DfsPostOrder' and len(nsites) == 1 and len(app) == 1 and not other and bool(elems)
     if shape_ok:
-        pv = strip(sl.operand(gd, pushes[0].args[1]))
-        shape_ok = pv[0] == 'call' and pv[1].endswith('::index') and strip(pv[2][1])[0] == 'call' and strip(pv[2][1])[1] == nexts[0].name
-    rev = [n for n in names if n.split('::')[-1] in ('reverse', 'rev', 'insert', 'sort', 'sort_by', 'sort_by_key', 'dedup', 'retain', 'push_front')]
-    ret = strip(sl.local(gd, 0))
-    ret_ok = any(x[0] == 'agg' and x[2] == 'Ok' and strip(dict(x[3])['0'])[0] == 'call' and strip(dict(x[3])['0'])[1] == 'std::vec::Vec::<T>::new' for x in walk(ret))
-    rep.check(shape_ok and not rev and ret_ok, 'R2', 'traversal', w(gd), 'DfsPostOrder over dependent->dependency edges, pushed in visit order, returned as is',
-              'unrecognised (orientation, traversal, emission) shape: traversal=%s nexts=%d pushes=%d reordering=%s' % (kind, len(nexts), len(pushes), rev))
+        for pv, filtered in elems:
+            pv = core(pv)
+            nx = core(pv[2][1]) if is_call(pv, '::index', '::node_weight') and len(pv[2]) == 2 and canon(peel(pv[2][0])) == canon(graph_p) else ('unknown',)
+            shape_ok = shape_ok and not filtered and nx[0] == 'call' and classify(nx[1]) == 'TRAV_NEXT' and bool(nx[2]) and on_trav(nx[2][0]) and site_of(nx) == nsites[0]
+    rev = SG.named(REORDERING)
+    rep.check(shape_ok and not rev and ret_ok, 'R2', 'traversal', w(gd), 'DfsPostOrder over dependent->dependency edges, appended in visit order, returned as is',
+              'unrecognised (orientation, traversal, emission) shape: traversal=%s nexts=%d appends=%d other_uses=%s reordering=%s' % (kind, len(nsites), len(app), sorted({c.name for c in other}), rev))
     if trav:
         t = trav[0]
-        once = not gd.in_loop(t.bb)
-        dom = all(gd.dominates(t.bb, c.bb) for c in nexts + moves)
+        once = len(trav) == 1 and t.forall is None and all(c.fn.kind != 'Closure' and not c.fn.in_loop(c.bb) for c in levels(t))
+        users = SG.of('TRAV_NEXT') + SG.of('TRAV_MOVE')
+        dom = reached and all(u.args and on_trav(u.args[0]) for u in users)
         rep.check(once and dom, 'R3', 'shared-state', t.where(), 'traversal state created once before the loop over roots',
                   'the traversal state is re-created per root: nodes shared by several roots would be emitted more than once')
-        mv_ok = len(moves) == 1 and gd.in_loop(moves[0].bb)
-        if mv_ok:
-            mv = strip(sl.operand(gd, moves[0].args[1]))
-            def other(b):
-                return b[0] == 'call' and b[1] == DN + 'id' and L.loop_element(b[2][0])[0] is not None
-            mv_ok = mv[0] == 'call' and mv[1] == 'std::iter::Iterator::find' and closure_compares_id(prog, sl, mv[2][1], other)
+        moves = SG.of('TRAV_MOVE')
+        mv_ok = len(msites) == 1 and bool(moves) and reached
+        for m in moves if mv_ok else ():
+            per_root = m.forall is not None or any(c.fn.in_loop(c.bb) for c in levels(m))
+            alts = H.normal_forms(prog, sl, gd, m.args[1:2]) if len(m.args) == 2 else []
+            ok = bool(alts)
+            for (a,) in alts:
+                fb = find_by_id(sl, a)
+                b = peel(fb[1]) if fb is not None else ('unknown',)
+                root = H.element_of(sl, b[2][0]) if b[0] == 'call' and b[1] == DN + 'id' and b[2] else None
+                ok = ok and root is not None and root[0] == 'param' and root[1] == GD and canon(fb[0]) == canon(graph_p)
+            mv_ok = mv_ok and per_root and ok
         rep.check(mv_ok, 'R3', 'move-to-root', moves[0].where() if moves else w(gd), 'move_to(index of the root) once per root', 'traversal is not restarted at each root node')
-    finds = [x for x in gd.calls if x.name == 'std::iter::Iterator::find']
-    for i, fc in enumerate(finds):
-        fates = local_fates(prog, gd, fc.dest[0], {}, set(), 0)
-        via = [x for x in gd.calls if x.name and x.name.endswith('::ok_or') and any(y[0] == 'agg' and y[2] == 'UnknownRootNode' for y in walk(sl.operand(gd, x.args[1])))]
-        rep.check(verdict(fates) == 'ok' and bool(via), 'R4', 'unknown-root#%d' % i, fc.where(), 'unknown root => Err(UnknownRootNode) propagated',
-                  'a root that is not in the graph is not an error: %s' % [repr(x) for x in fates])
+    missing_items(rep, prog, sl, SG, 'unknown-root', 'UnknownRootNode', 'unknown root => Err(UnknownRootNode) propagated',
+                  'a root that is not in the graph is not an error', w(gd))
     # ---- R5 --------------------------------------------------------------------------------------------
     callers = [c for c in prog.callers().get(GD, []) if c.name == GD]
     rep.floor('R5', 'get_dependencies_callers', len(callers))
@@ -126,57 +293,95 @@ def run(ctx, rep):
         subj = f.path
         vd = verdict(result_fates(prog, f, c))
         rep.check(vd == 'ok', 'R5', subj + '/propagated', c.where(), 'error of get_dependencies propagated', 'result of get_dependencies: ' + vd)
-        roots = strip(sl.operand(f, c.args[1]))
+        roots = peel(sl.operand(f, c.args[1]))
+        graph = peel(sl.operand(f, c.args[0]))
         if f.path == 'cargo_libcnb::package::command::execute':
-            # find(|n| n.path == current_dir).map(|n| vec![n]).or_else(|| (current_dir == workspace_root).then(|| all nodes)).unwrap_or_default()
-            txt = vstr(roots, 0)
-            ok = roots[0] == 'call' and roots[1].endswith('unwrap_or_default')
-            inner = strip(roots[2][0]) if ok else ('unknown',)
-            ok = ok and inner[0] == 'call' and inner[1].endswith('::or_else')
-            first = strip(inner[2][0]) if ok else ('unknown',)
-            ok = ok and first[0] == 'call' and first[1].endswith('Option::<T>::map') and strip(first[2][0])[0] == 'call' and strip(first[2][0])[1] == 'std::iter::Iterator::find'
-            sel_ok = False
-            all_ok = False
-            if ok:
-                fcl = strip(strip(first[2][0])[2][1])
-                body = prog.fns.get(fcl[1]) if fcl[0] == 'closure' else None
-                if body is not None:
-                    bv = strip(sl.local(body, 0))
-                    sel_ok = bv[0] == 'call' and bv[1].endswith('::eq') and any(x[0] == 'field' and x[2] == 'path' for x in walk(bv)) and \
-                        any(x[0] == 'call' and x[1] == 'std::env::current_dir' for x in walk(bv))
-                ocl = strip(inner[2][1])
-                ob = prog.fns.get(ocl[1]) if ocl[0] == 'closure' else None
-                if ob is not None:
-                    ov = strip(sl.local(ob, 0))
-                    all_ok = ov[0] == 'call' and ov[1].endswith('::then') and strip(ov[2][0])[0] == 'call' and strip(ov[2][0])[1].endswith('::eq') and \
-                        any(x[0] == 'call' and x[1] == 'libcnb_package::find_cargo_workspace_root_dir' for x in walk(ov[2][0])) and \
-                        any(x[0] == 'call' and x[1] == 'std::env::current_dir' for x in walk(ov[2][0]))
-                    if all_ok:
-                        tcl = strip(ov[2][1])
-                        tb = prog.fns.get(tcl[1]) if tcl[0] == 'closure' else None
-                        tv = strip(sl.local(tb, 0)) if tb else ('unknown',)
-                        all_ok = tv[0] == 'call' and tv[1] == 'std::iter::Iterator::collect' and strip(tv[2][0])[0] == 'call' and strip(tv[2][0])[1].endswith('node_weights')
-            rep.check(ok and sel_ok and all_ok, 'R5', subj + '/selection', c.where(), 'roots = node at cwd, else all nodes when cwd is the workspace root',
+            sel_ok, all_ok, n, txt = selection_by_cwd(prog, sl, f, c, graph)
+            rep.check(n == 3 and sel_ok and all_ok, 'R5', subj + '/selection', c.where(), 'roots = node at cwd, else all nodes when cwd is the workspace root',
                       'root selection not recognised (find_by_cwd=%s all_at_root=%s): %s' % (sel_ok, all_ok, txt[:160]))
         elif f.path == 'libcnb_test::build::package_buildpack':
-            ok = roots[0] == 'array' and len(roots[1]) == 1
+            al = iters.alts(sl, roots)
+            ok = len(al) == 1 and al[0][1] is None
             if ok:
-                r0 = strip(roots[1][0])
-                ok = r0[0] == 'call' and r0[1] == 'std::iter::Iterator::find'
-                if ok:
-                    fcl = strip(r0[2][1])
-                    body = prog.fns.get(fcl[1]) if fcl[0] == 'closure' else None
-                    bv = strip(sl.local(body, 0)) if body else ('unknown',)
-                    ok = bv[0] == 'call' and bv[1].endswith('::eq') and any(x[0] == 'field' and x[2] == 'buildpack_id' for x in walk(bv))
+                fl = node_found_by(sl, al[0][0], graph)
+                ok = fl is not None and fl[1] == 'buildpack_id'
             rep.check(ok, 'R5', subj + '/selection', c.where(), 'root = the node with the requested buildpack id (missing => error)', 'root selection not recognised: ' + vstr(roots)[:160])
         else:
             rep.unproven('R5', subj + '/selection', c.where(), 'unknown caller of get_dependencies')
         # the order is consumed front to back: iterated directly, no reversal
-        order = ('unwrap', None)
         bad = []
-        for x in f.calls:
-            if x.name and x.name.split('::')[-1] in ('rev', 'reverse', 'sort', 'sort_by', 'sort_by_key', 'pop', 'swap'):
-                a0 = sl.operand(f, x.args[0]) if x.args else ('unknown',)
-                if any(y[0] == 'call' and y[1] == GD for y in walk(a0)):
-                    bad.append(x.name)
+        for g in H.scope_fns(prog, f):
+            for x in g.calls:
+                if x.name and x.name.split('::')[-1] in ('rev', 'reverse', 'sort', 'sort_by', 'sort_by_key', 'pop', 'swap'):
+                    a0 = sl.operand(g, x.args[0]) if x.args else ('unknown',)
+                    if any(y[0] == 'call' and y[1] == GD for y in walk(a0)):
+                        bad.append(x.name)
         rep.check(not bad, 'R5', subj + '/consumption', c.where(), 'build order consumed front to back', 'build order is reordered before use: %s' % bad)
+
+
+def node_found_by(sl, v, graph):
+    """v denotes find(<graph>.node_weights(), |n| n.<field> == X): (find value, field, X), else None"""
+    f = core(v)
+    if not (f[0] == 'call' and f[1] == FIND and len(f[2]) == 2):
+        return None
+    recv = core(f[2][0])
+    if not (is_call(recv, '::node_weights') and recv[2] and canon(peel(recv[2][0])) == canon(graph)):
+        return None
+    n = H.sym('node')
+    r = H.apply1(sl, f[2][1], n, keep='*')
+    if r is None:
+        return None
+    r = peel(r)
+    if not (is_call(r, '::eq') and len(r[2]) == 2):
+        return None
+    a, b = peel(r[2][0]), peel(r[2][1])
+    for x, y in ((a, b), (b, a)):
+        if x[0] == 'field' and peel(x[1]) == n:
+            return f, x[2], y
+    return None
+
+
+def selection_by_cwd(prog, sl, f, c, graph):
+    """the roots handed to get_dependencies are, case by case:
+         some node has path == cwd                       -> (a vector made from) that node
+         none has, and cwd == workspace root             -> all node weights of the graph
+         none has, and cwd != workspace root             -> nothing
+    whether this is written as find().map().or_else(|| eq.then(..)).unwrap_or_default() or as an if-let ladder"""
+    cases = H.Cases(prog, sl).of_operand(f, c.args[1])
+    txt = ' | '.join('[%s] => %s' % (', '.join('%s %s' % (k, vstr(x)[:60]) for k, x in g), vstr(v)[:60]) for g, v in cases)
+    is_cwd = lambda x: is_call(core(x), 'std::env::current_dir') and core(x)[1] == 'std::env::current_dir'
+    is_root = lambda x: core(x)[0] == 'call' and core(x)[1] == 'libcnb_package::find_cargo_workspace_root_dir'
+
+    def by_cwd(x):
+        fl = node_found_by(sl, x, graph)
+        return fl is not None and fl[1] == 'path' and is_cwd(fl[2])
+
+    def at_root(x):
+        x = peel(x)
+        if not (is_call(x, '::eq') and len(x[2]) == 2):
+            return False
+        a, b = x[2]
+        return (is_cwd(a) and is_root(b)) or (is_root(a) and is_cwd(b))
+    sel = allw = none = 0
+    for g, v in cases:
+        found = [k for k, x in g if k in ('some', 'none') and by_cwd(x)]
+        root = [k for k, x in g if k in (True, False) and at_root(x)]
+        if found == ['some'] and not root:
+            elems = H.vec_macro_elems(sl, f, v)
+            payload = [x for k, x in g if k == 'some' and by_cwd(x)][0]
+            # (a vector literal inside a closure / helper is written in that body's own terms: not compared)
+            if elems is None or (len(elems) == 1 and (core(elems[0]) == core(payload) or site_of(peel(v))[0] != f.path)):
+                sel += 1
+        elif found == ['none'] and root == [True]:
+            al = iters.alts(sl, v)
+            if len(al) == 1 and al[0][1] is not None and not al[0][2]:
+                coll = core(al[0][1])
+                if is_call(coll, '::node_weights') and coll[2] and canon(peel(coll[2][0])) == canon(graph):
+                    allw += 1
+        elif found == ['none'] and root == [False]:
+            x = peel(v)
+            if x == H.DEFAULT:
+                none += 1
+            elif x[0] == 'call' and x[1] in H.VEC_NEW and not H.vec_uses(prog, sl, f, site_of(x))[0] and not H.vec_uses(prog, sl, f, site_of(x))[2]:
+                none += 1
+    return sel == 1, allw == 1 and none == 1, len(cases), txt
